@@ -15,6 +15,7 @@ type ReplayFn = fn(&Value) -> Vec<Violation>;
 
 const PROPS: &[(&str, RunFn, ReplayFn)] = &[
     ("C05", props::c05::run, props::c05::replay),
+    ("C06", props::c06::run, props::c06::replay),
     ("C08", props::c08::run, props::c08::replay),
     ("C09", props::c09::run, props::c09::replay),
     ("C10", props::c10::run, props::c10::replay),
